@@ -151,7 +151,7 @@ def main(tier, seed, t0):
             ctx.violation('width-table', None, 'repr list', 'the repr whitelist is %s, documented: %s' % (sorted(seen), sorted(INTS)), key='C18/width-table/list', construct='src/parser/mod.rs::Derive::parse (repr match)')
     # ---- all item rules on every family member
     st, d = runner.stage_inst(tier, seed)
-    ictx, n = runner.run_instances('props.c18', d, select=lambda r: r.get('kind') in ('perm', 'reprfam'))
+    ictx, n = runner.run_instances('props.c18', d, select=lambda r: r.get('kind') in ('perm', 'reprfam', 'reprauto'))
     ctx.merge(ictx)
     ctx.programs |= {x['id'] for x in ex['instances']}
     fam0 = sorted(fams.items())[0]
